@@ -46,6 +46,9 @@ def templates(tier):
         ("T3a", E("Z", ["m"], take(T("A", "m"), T("B", "m"), sel=0), times(T("C", "m")))),
         ("T3b", E("Z", ["m"], times(T("C", "m")), take(T("A", "m"), T("B", "m"), sel=1))),
     ]
+    # contraction and broadcast in one Einsum
+    ts.append(("P10a", E("Z", ["m", "n"], times(T("A", "k", "m")))))
+    ts.append(("P10b", E("Z", ["m", "n"], times(T("A", "k", "m"), T("B", "k")))))
     # several take() terms; take() with a scalar operand (selected and not selected)
     ts.append(("T4", E("Z", ["m"], take(T("A", "m"), T("B", "m"), sel=0), take(T("C", "m"), T("D", "m"), sel=1))))
     ts.append(("T5a", E("Z", ["m"], take(T("A", "m"), V("a"), T("B", "m"), sel=0))))
